@@ -55,6 +55,9 @@ def rat(n):
     return Rational(v.numerator, v.denominator)
 
 
+ENUM_SYMS = set()        # symbols that stand for enumerators: two different ones are known to be unequal
+
+
 INT_RX = re.compile(r"^(const )?(unsigned |signed )?(long long|long|int|short|char|votca::Index|std::size_t|size_t|unsigned)( int)?$")
 
 
@@ -187,7 +190,12 @@ class Fold:
                 return env[n["decl"]]
             return self.atom_for(n, env)
         if dk == "enumconst":
-            return S(n["qname"])
+            q, t = n["qname"], (n.get("type") or "").replace("const ", "").strip()
+            if t and "::" in q and q.rsplit("::", 1)[0] != t and t.rsplit("::", 1)[0] == q.rsplit("::", 1)[0] and t.split("::")[-1] not in q:
+                q = t + "::" + q.rsplit("::", 1)[1]      # scoped enumerator: the exporter's qualified name omits the enum's own name
+            v = S(q)
+            ENUM_SYMS.add(v)
+            return v
         if dk == "global":
             if self.atom_hook:
                 v = self.atom_hook(self, n, env)
@@ -277,6 +285,8 @@ class Fold:
         return self.arith(op, a, b)
 
     def compare(self, op, a, b):
+        if op in ("==", "!=") and a in ENUM_SYMS and b in ENUM_SYMS:
+            return sp.true if ((a == b) == (op == "==")) else sp.false
         if getattr(a, "is_number", False) and getattr(b, "is_number", False) and not isinstance(a, (Matrix, tuple)) and not isinstance(b, (Matrix, tuple)):
             r = {"<": a < b, "<=": a <= b, ">": a > b, ">=": a >= b, "==": sp.Eq(a, b), "!=": sp.Ne(a, b)}[op]
             if r in (sp.true, sp.false, True, False):
@@ -1130,6 +1140,18 @@ class Fold:
                 groups.append(cur)
             if cur is not None and st is not None:
                 cur["stmts"].append(st)
+        if c in ENUM_SYMS:
+            sel = [g for g in groups if str(c) in [str(l) for l in g["labels"]] or str(c).split("::")[-1] in [str(l).split("::")[-1] for l in g["labels"] if l != "default"]]
+            if not sel:
+                sel = [g for g in groups if "default" in g["labels"]]
+            if sel:
+                start = groups.index(sel[0])
+                for g in groups[start:]:
+                    try:
+                        self.stmts(g["stmts"], env)
+                    except LoopBreak:
+                        return
+            return
         if getattr(c, "is_Integer", False):
             sel = [g for g in groups if int(c) in [l for l in g["labels"] if isinstance(l, int)]]
             if not sel:
